@@ -578,6 +578,13 @@ class CacheWorld(object):
       self.start_writer()
     self.flush_pending()
     self.r.run_due()
+    # the release condition is also evaluated whenever the writer is parked in a sleep
+    # and nothing is queued for the reactor thread: nothing but new input could then
+    # change the state
+    wt = self.s.th.get('W')
+    if (self.wmode == 'writer' and wt is not None and wt.alive and wt.wake is not None
+        and not self.r.from_thread and not self.stopping):
+      self.check_backpressure()
 
   # ------------------------------------------------------------ writer thread
   def start_writer(self):
